@@ -418,6 +418,14 @@ fn judge(s: &Script, exp: &Expect, obs: &Observed, p10: Option<&mut PropReport>,
                 format!("script {} -> {:?} at {:?}ms, reference {:?} at {:?}ms", s.to_json(), obs.result, obs.finish, exp.results, exp.finish),
                 replay.clone(),
             );
+        } else if !exp.tie && started != exp.starts && matches!(exp.results[0], Res::Ok(_)) && !matches!(obs.result, Res::Ok(_)) {
+            // the attempts were not started when the pacing rules say (C11 reports that); here: a candidate that accepts
+            // before the deadline once it is attempted exists, and the operation did not succeed
+            p.violation(
+                format!("result-vs-reference:no-success-although-a-candidate-accepts-in-time:{shape}"),
+                format!("script {} -> {:?} at {:?}ms with starts {:?}; started as configured ({:?}) the reference succeeds: {:?} at {:?}ms", s.to_json(), obs.result, obs.finish, started, exp.starts, exp.results, exp.finish),
+                replay.clone(),
+            );
         } else if !exp.tie && started == exp.starts && obs.finish != exp.finish {
             p.violation(
                 format!("finish-time:{}:{shape}", if obs.finish > exp.finish { "late" } else { "early" }),
@@ -714,12 +722,22 @@ fn blackhole_part(args: &Args, report: &mut Report) {
             cfg.connect_timeout = Some(Duration::from_secs(4));
             cfg.happy_eyeballs_concurrency = [Some(1), Some(2), None][round % 3];
             // late-side judgements are repeated up to three times: a loaded machine can delay one run, a defect delays all
+            let mut watchdogs = 0;
             for attempt in 0..3 {
                 let t: TcpTransport = TcpTransport::builder().with_config(cfg.clone()).with_gai_resolver().build();
                 let t0 = Instant::now();
                 let r = tokio::time::timeout(Duration::from_secs(8), t.connect_to_addrs([hole])).await;
                 let ms = t0.elapsed().as_millis();
-                let res = match r { Err(_) => Err("WATCHDOG".into()), Ok(Ok(s)) => Ok(s.peer_addr().ok()), Ok(Err(e)) => Err(e.to_string()) };
+                let res = match r {
+                    Err(_) => {
+                        watchdogs += 1;
+                        // three runs in a row still pending 8 s after the call, with a 300 ms deadline configured: that is
+                        // not a slow machine, the deadline is not in force
+                        Err(if watchdogs == 3 { "STILL-PENDING-AFTER-8S-IN-3-RUNS".to_string() } else { "WATCHDOG".to_string() })
+                    }
+                    Ok(Ok(s)) => Ok(s.peer_addr().ok()),
+                    Ok(Err(e)) => Err(e.to_string()),
+                };
                 let fine = ms <= 300 + 1200;
                 if fine || attempt == 2 {
                     out.push(("single-black-hole", res, ms));
@@ -760,6 +778,25 @@ fn blackhole_part(args: &Args, report: &mut Report) {
                 let res = match r { Err(_) => Err("WATCHDOG".into()), Ok(Ok(s)) => Ok(s.peer_addr().ok().filter(|p| *p != first)), Ok(Err(e)) => Err(e.to_string()) };
                 out.push((name, res, ms));
             }
+            // (d) mixed families, one attempt at a time: two refusing IPv6 candidates in front of the two listening IPv4
+            //     ones. The documented family order puts the first IPv6 address first and the FIRST IPv4 address second,
+            //     so the connection has to land on the first IPv4 candidate of the list given.
+            let refused_v6 = |_: ()| -> Option<SocketAddr> {
+                let l = std::net::TcpListener::bind("[::1]:0").ok()?;
+                let a = l.local_addr().ok()?;
+                drop(l);
+                Some(a)
+            };
+            if let (Some(r1), Some(r2)) = (refused_v6(()), refused_v6(())) {
+                for (name, addrs, want) in [("mixed-families-in-order", vec![r1, r2, good_addr, good2_addr], good_addr), ("mixed-families-reversed", vec![r1, r2, good2_addr, good_addr], good2_addr)] {
+                    let t: TcpTransport = TcpTransport::builder().with_config(cfg.clone()).with_gai_resolver().build();
+                    let t0 = Instant::now();
+                    let r = tokio::time::timeout(Duration::from_secs(10), t.connect_to_addrs(addrs)).await;
+                    let ms = t0.elapsed().as_millis();
+                    let res = match r { Err(_) => Err("WATCHDOG".into()), Ok(Ok(s)) => Ok(s.peer_addr().ok().filter(|p| *p != want)), Ok(Err(e)) => Err(e.to_string()) };
+                    out.push((name, res, ms));
+                }
+            }
             drop(fillers);
             drop(listener);
             Some((out, good_addr))
@@ -774,6 +811,17 @@ fn blackhole_part(args: &Args, report: &mut Report) {
         };
         for (name, result, ms) in out {
             let replay = json!({"engine": "eyeballs", "public": true, "blackhole_trial": name});
+            if matches!(&result, Err(e) if e == "STILL-PENDING-AFTER-8S-IN-3-RUNS") {
+                for id in ["C10", "C11"] {
+                    if args.wants(id) {
+                        let p = report.prop(id, if id == "C10" { RULE10 } else { RULE11 });
+                        p.eval(Some(hash_of(&("blackhole", name, round))));
+                        p.count("blackhole_trials", 1);
+                        p.violation("public:configured-deadline-not-in-force", format!("{name}: TcpTransport built with happy_eyeballs_timeout = 300 ms was still connecting to a never-answering candidate after 8 s, three runs in a row"), replay.clone());
+                    }
+                }
+                continue;
+            }
             if matches!(&result, Err(e) if e == "WATCHDOG") {
                 for id in ["C10", "C11"] {
                     if args.wants(id) {
@@ -801,6 +849,11 @@ fn blackhole_part(args: &Args, report: &mut Report) {
                     p.sample(json!({"public_blackhole_trial": name, "elapsed_ms": ms as u64, "result": format!("{result:?}")}));
                 }
                 match name {
+                    "mixed-families-in-order" | "mixed-families-reversed" => match &result {
+                        Ok(Some(other)) => p.violation("public:attempts-not-started-in-the-given-order:mixed-families", format!("{name}: [refusing v6, refusing v6, listening v4 A, listening v4 B], one attempt at a time, connected to {other} instead of A"), replay.clone()),
+                        Err(e) => p.violation("public:error-although-candidates-listen:mixed-families", format!("{name}: {e}"), replay.clone()),
+                        Ok(None) => p.count("mixed_family_trials", 1),
+                    },
                     "two-listening-in-order" | "two-listening-reversed" => {
                         // Ok(None) = connected to the first candidate; Ok(Some(p)) = connected to another one
                         match &result {
